@@ -93,6 +93,10 @@ package hcl
 //@ assigns nothing
 //@ ensures fresh(ret) && ret != nil && ret.parent == ctx && ret.Variables == nil && ret.Functions == nil
 
+// verif:func (*EvalContext).Parent
+//@ pure
+//@ ensures ret == ctx.parent
+
 // verif:func (Range).Ptr
 //@ assigns nothing
 //@ ensures fresh(ret) && ret != nil
